@@ -27,8 +27,9 @@ How the Go state is rendered
 * `Include.Module` pointers are what `Modules.include` has linked (`Identity.Link`, shared with the
   identity layer); the identity dictionary is the one `resolveIdentities` builds (`Identity.Dict`).
 * Recursion (typedef chains, union members, include walks) is by fuel; `Env.of` supplies more fuel
-  than any run can use (`Goyang.Lemmas.Types`, and tested by the correspondence run: the driver
-  reports `out-of-fuel` as an error class of its own).
+  than any run can use (`Goyang.Props.C09.fuel_suffices`, proved in `Goyang.Lemmas.TypesFuel`; an
+  exhausted budget would be the error class `out-of-fuel`, which the correspondence run would
+  show as a disagreement).
 * `regexp/syntax.Parse` (posix-pattern check) is a parameter of the environment (`posixOk`).
 Core Lean only.
 -/
